@@ -104,8 +104,8 @@ func c18(r *Report) propMeta {
 	r.CondCount("in-progress-single-condition", vp, 1)
 	vt := bK + "ValidateTransitionExecTime"
 	r.Gate("exec-window", vt, RetOK(), []Cond{
-		{Op: "LSS", A: []string{"param:execTime"}, B: []string{"call:Time.Add", "field:Params.MinTransitionDuration", "call:Context.BlockTime"}, Want: false, Desc: "not execTime.Before(now+Min)"},
-		{Op: "LSS", A: []string{"call:Time.Add", "field:Params.MaxTransitionDuration", "call:Context.BlockTime"}, B: []string{"param:execTime"}, Want: false, Desc: "not execTime.After(now+Max)"}}, GateOpts{FailIsError: true})
+		{Op: "LSS", A: []string{"param:execTime"}, B: []string{"^call:Time.Add", "binops=", "field:Params.MinTransitionDuration", "call:Context.BlockTime"}, Want: false, Desc: "not execTime.Before(now+Min)"},
+		{Op: "LSS", A: []string{"^call:Time.Add", "binops=", "field:Params.MaxTransitionDuration", "call:Context.BlockTime"}, B: []string{"param:execTime"}, Want: false, Desc: "not execTime.After(now+Max)"}}, GateOpts{FailIsError: true})
 
 	r.Rule("C18.R6", "E6 incoming-group signing is best effort in a cache context")
 	cs := bK + "createSigningRequest"
